@@ -461,6 +461,20 @@ def impl_inline(cells, score, rng):
     return (captured[0] if captured else []), out
 
 
+def impl_inline_plain(cells, score, rng):
+    '''inline_cells(dic, score) with nothing captured.'''
+    from t4_geom_convert.Kernel.Volume import CellInlining as CI
+    dic = to_cell_dict(cells, rng)
+    with quiet():
+        try:
+            CI.inline_cells(dic, score)
+        except KeyError:
+            return ('err', 'EKey')
+        except RecursionError:
+            return ('err', 'EFuel')
+    return ('ok', from_cell_dict(dic))
+
+
 def gen_fill_table(rng, cyclic=False):
     '''Cells of universes 0..3; some cells of universe u are FILLed with a
     universe > u (any universe when cyclic).'''
